@@ -100,21 +100,30 @@ func (c *Config) Proxy(closing chan bool, cc io.ReadWriter, url *url.URL) error 
 	}
 	sToC.processors = cToS.processors
 
+	// Closed when both relays have stopped reading.
+	stop := make(chan struct{})
+
 	var wg sync.WaitGroup
 	wg.Add(2)
 	go func() { // Forwards frames from client to server.
 		defer wg.Done()
-		if err := cToS.relayFrames(closing); err != nil {
+		if err := cToS.relayFrames(closing, stop); err != nil {
 			log.Error(context.TODO(), "relaying frame from client", "url", url, "error", err)
 		}
 	}()
 	go func() { // Forwards frames from server to client.
 		defer wg.Done()
-		if err := sToC.relayFrames(closing); err != nil {
+		if err := sToC.relayFrames(closing, stop); err != nil {
 			log.Error(context.TODO(), "relaying frame to client", "url", url, "error", err)
 		}
 	}()
 	wg.Wait()
+
+	// Nothing is queued any more, let the writers deliver what is left.
+	close(stop)
+	<-cToS.writerDone
+	<-sToC.writerDone
+
 	return nil
 }
 
